@@ -163,7 +163,7 @@ def worker_main(jobfile, outfile):
                 def f():
                     try:
                         s, n = do_renc(job)
-                    except (ValueError, TypeError, SystemError, OverflowError, AssertionError) as ex:
+                    except Exception as ex:   # any Python exception is a rejection
                         return "raised " + type(ex).__name__
                     d = mlw_codec.decode(bytearray(s))
                     return "returned %d %s" % (len(s), " ".join(map(str, d[:64])))
@@ -710,12 +710,15 @@ def run(tier):
     marks.append(("corrupt", time.time() - t0))
     # ---- 3. reorder: real traversal recovered through encode_weights with index-coded weights (in batches)
     rjobs = make_reorder_jobs(rng, tier, table)
-    # ---- 4. out-of-range weights must raise
+    # ---- 4. out-of-range weights must raise at the public entries (never given to the raw binding
+    #         mlw_codec.reorder_encode: its C range check is compiled out by -DNDEBUG and it can crash), and the
+    #         extreme in-range values must be accepted
     oor_jobs = []
-    for v, api in [(256, "api"), (-256, "wc"), (300, "raw"), (511, "api"), (-512, "wc"), (1000, "raw"), (32767, "api"), (-32768, "raw")]:
+    for v, api in [(256, "api"), (-256, "wc"), (300, "wc"), (511, "api"), (-512, "wc"), (1000, "api"), (32767, "api"), (-32768, "wc"),
+                   (255, "api"), (-255, "wc")]:
         oor_jobs.append({"k": "oor", "api": api, "acc": "Ethos_U55_128", "shape": [4, 1, 1, 4], "dil": [1, 1], "bd": 8, "obd": 16, "dw": 0, "pk": 0,
-                         "iud": 8, "oud": 8, "dh": 8, "dw_": 8, "vals": ["rand", 7, "gauss"], "poke": [5, v]})
-    orr = run_jobs(oor_jobs, "oor", nworkers=4)
+                         "vals": ["rand", 7, "gauss"], "poke": [5, v]})
+    orr = run_jobs(oor_jobs, "oor", nworkers=5)
     enc_oor = run_jobs([{"k": "enc", "w": [1, 2, v, 3]} for v in (256, -256, 511, 40000, -70000)], "encoor", nworkers=1)
 
     marks.append(("oor", time.time() - t0))
@@ -784,31 +787,39 @@ def run(tier):
         evals += e_
     marks.append(("reorder", time.time() - t0))
     # ---- out of range
-    oor_bad = []
+    oor_bad, inr_bad = [], []
     for j, r in zip(oor_jobs, orr):
         evals += 1
         v = j["poke"][1]
+        inrange = -255 <= v <= 255
         if r is None or "crash" in r:
-            oor_bad.append((v, j["api"], "worker died: %s" % (r,)))
+            (inr_bad if inrange else oor_bad).append((v, j["api"], "worker died: %s" % (r,)))
         elif r["code"] != 0:
-            oor_bad.append((v, j["api"], "interpreter died with status %s" % r["code"]))
-        elif not r["txt"].startswith("raised"):
+            (inr_bad if inrange else oor_bad).append((v, j["api"], "interpreter died with status %s" % r["code"]))
+        elif inrange and not r["txt"].startswith("returned"):
+            inr_bad.append((v, j["api"], r["txt"][:200]))
+        elif not inrange and not r["txt"].startswith("raised"):
             oor_bad.append((v, j["api"], r["txt"][:200]))
-        cnt["out_of_range_cases"] += 1
+        cnt["out_of_range_cases" if not inrange else "extreme_in_range_cases"] += 1
     for v, r in zip((256, -256, 511, 40000, -70000), enc_oor):
         evals += 1
         cnt["out_of_range_cases"] += 1
         if r is None or "crash" in r or r.get("ok"):
             bad.append(({"kind": "out_of_range_accepted", "entry": "encode", "value": v}, {"result": r}, "mlw_codec.encode accepted or died on the out-of-range weight %d" % v))
+    entry = {"api": "api.npu_encode_weights", "wc": "weight_compressor.encode_weights"}
+    vol = "int16 OHWI volume of shape (4,1,1,4), gen_values(['rand',7,'gauss'],16) with element 5 replaced by the value"
     if oor_bad:
-        entry = {"api": "api.npu_encode_weights", "wc": "weight_compressor.encode_weights", "raw": "mlw_codec.reorder_encode"}
         v, api, txt = oor_bad[0]
-        bad.append(({"kind": "out_of_range_accepted", "entry": "reorder_encode"},
-                    {"first": {"value": v, "through": entry[api], "observed": txt,
-                               "volume": "int16 OHWI volume of shape (4,1,1,4), gen_values(['rand',7,'gauss'],16) with element 5 replaced by the value"},
+        bad.append(({"kind": "out_of_range_accepted", "entry": "npu_encode_weights"},
+                    {"first": {"value": v, "through": entry[api], "observed": txt, "volume": vol},
                      "all": [{"value": a, "through": entry[b_], "observed": c_} for a, b_, c_ in oor_bad]},
                     "out-of-range weight %d given to %s is not rejected (%s); %d of %d out-of-range probes were accepted or "
-                    "killed the interpreter" % (v, entry[api], txt[:80], len(oor_bad), len(oor_jobs))))
+                    "killed the interpreter" % (v, entry[api], txt[:80], len(oor_bad), sum(1 for j in oor_jobs if abs(j["poke"][1]) > 255))))
+    if inr_bad:
+        v, api, txt = inr_bad[0]
+        bad.append(({"kind": "in_range_rejected", "entry": "npu_encode_weights"},
+                    {"first": {"value": v, "through": entry[api], "observed": txt, "volume": vol}},
+                    "in-range weight %d given to %s is rejected or not encoded (%s)" % (v, entry[api], txt[:80])))
 
     # ---- thorough: sanitizer build as supporting evidence
     san = {}
@@ -835,6 +846,10 @@ def run(tier):
         "samples": [{"generator": n_, "weights": w[:12], "stream_bytes": len(s) if s else None} for (n_, w), s in list(zip(seqs, streams))[5:8]] +
                    [{"reorder_cfg": cfg_vector(j, table, skmax), "api": j["api"], "layout": j["layout"]} for j in rjobs[:2]],
         "sanitizer": san,
+        "note_raw_binding": "informational: the internal binding mlw_codec.reorder_encode itself does not range-check (mlw_encode.c:859 is under "
+                            "#ifndef NDEBUG and setup.py builds with -DNDEBUG); out-of-range values are therefore never passed to it by this check; the "
+                            "property is observed at api.npu_encode_weights / weight_compressor.encode_weights (guard added by repository commit fa734f2) "
+                            "and at mlw_codec.encode (own check in mlw_codecmodule.c)",
     })
     res.assumptions += ["mlw_decode.c is the reference decoder", "the sampled inputs stand for the encoder's behaviour (no theorem about the encoder)"]
     if model_err:
